@@ -54,3 +54,40 @@ fn c17_morsel_split() {
     }
     kani::cover!(off > 0 && off < e - s);
 }
+
+use grafeo_common::types::Value;
+use grafeo_core::execution::parallel::MergeableAccumulator;
+
+fn acc_of(vals: &[i64]) -> MergeableAccumulator { let mut a = MergeableAccumulator::new(); let mut i = 0; while i < vals.len() { a.add(&Value::Int64(vals[i])); i += 1; } a }
+fn same_acc(a: &MergeableAccumulator, b: &MergeableAccumulator) -> bool {
+    fn int_of(v: &Option<Value>) -> Option<i64> { match v { Some(Value::Int64(i)) => Some(*i), _ => None } }
+    a.count == b.count && a.sum.to_bits() == b.sum.to_bits() && int_of(&a.min) == int_of(&b.min) && int_of(&a.max) == int_of(&b.max) && int_of(&a.first) == int_of(&b.first)
+}
+
+//@ property: C17
+//@ tier: thorough
+//@ optional: yes
+//@ cap_s: 900
+//@ mem_gb: 12
+//@ encodes: MergeableAccumulator::{new,add,merge,finalize_count,finalize_sum}, compare_for_min/max, value_to_f64
+//@ symbolic: three Int64 values in +-2^20 (so that f64 sums are exact); every split point 0..=3 (unrolled)
+//@ bound: 3 values, 2 partial accumulators
+//@ oracle: merging the accumulators of the left and right part gives the same count, sum (bitwise), min, max and first as one sequential accumulator
+#[kani::proof]
+#[kani::unwind(5)]
+fn c17_accumulator_merge_equals_sequential() {
+    let v: [i64; 3] = kani::any();
+    kani::assume(v[0].abs() <= (1 << 20) && v[1].abs() <= (1 << 20) && v[2].abs() <= (1 << 20));
+    let seq = acc_of(&v);
+    macro_rules! split { ($k:expr) => {{
+        let mut left = acc_of(&v[..$k]); let right = acc_of(&v[$k..]);
+        left.merge(&right);
+        assert!(same_acc(&left, &seq), "merged partial aggregates differ from the sequential aggregate");
+        std::mem::forget((left, right));
+    }}; }
+    split!(0); split!(1); split!(2); split!(3);
+    assert!(matches!(seq.finalize_count(), Value::Int64(3)));
+    kani::cover!(v[0] > v[1] && v[1] > v[2]);
+    kani::cover!(v[0] == v[2]);
+    std::mem::forget(seq);
+}
